@@ -330,6 +330,8 @@ macro_rules | `(tactic| dm_prim) => `(tactic| with_reducible exact good_removeFi
 
 theorem good_fsIsRegular {k} (p) : Good k (fsIsRegular p) := by unfold fsIsRegular; dm_good
 macro_rules | `(tactic| dm_prim) => `(tactic| with_reducible exact good_fsIsRegular _)
+theorem good_fsIsSymlink {k} (p) : Good k (fsIsSymlink p) := by unfold fsIsSymlink; dm_good
+macro_rules | `(tactic| dm_prim) => `(tactic| with_reducible exact good_fsIsSymlink _)
 
 theorem good_fsGetPerms {k} (p) : Good k (fsGetPerms p) := by unfold fsGetPerms; dm_good
 macro_rules | `(tactic| dm_prim) => `(tactic| with_reducible exact good_fsGetPerms _)
